@@ -265,7 +265,11 @@ func c08pipeModel(c *Ctx, ruleMirror, ruleHop, ruleState string) {
 			report(ruleMirror, cons, v, "")
 			continue
 		}
-		if eq, ok := oEqual(res[1], oNil{}); !ok || !eq {
+		if eq, ok := oEqual(res[1], oNil{}); !ok {
+			v.unk = "NewTransform's error result is " + showVal(res[1])
+			report(ruleMirror, cons, v, "")
+			continue
+		} else if !eq {
 			v.bad = "NewTransform returns an error for two valid references"
 			report(ruleMirror, cons, v, "")
 			continue
@@ -279,7 +283,10 @@ func c08pipeModel(c *Ctx, ruleMirror, ruleHop, ruleState string) {
 		case len(out) != 3:
 			v.unk = "the Transformer returns " + fmt.Sprint(len(out)) + " values"
 		default:
-			if eq, ok := oEqual(out[2], oNil{}); !ok || !eq {
+			if eq, ok := oEqual(out[2], oNil{}); !ok {
+				v.unk = "the Transformer's error result is " + showVal(out[2])
+				break
+			} else if !eq {
 				v.bad = "the Transformer reports an error for an ordinary position"
 				break
 			}
